@@ -24,3 +24,4 @@ pub mod scalar;
 pub mod simplify;
 pub mod tensor;
 pub mod vec_graph;
+pub mod mrtest;
